@@ -14,6 +14,13 @@ EDITS = {
  'types-comment': [('dasp_sample/src/types.rs', 'fn wrap_overflow_once(self) -> Self {', 'fn wrap_overflow_once(self) -> Self { /* one period at most */')],
  'ops-decimal-bias': [('dasp_sample/src/ops.rs', '0x3f80_0000', '1_065_353_216')],
  'ops-div2': [('dasp_sample/src/ops.rs', '0x3f80_0000) >> 1', '0x3f80_0000) / 2')],
+ 'ops-isnan-or-early-return': [('dasp_sample/src/ops.rs', '''        if x >= 0.0 {
+            f32::from_bits((x.to_bits() + 0x3f80_0000) >> 1)
+        } else {
+            f32::NAN
+        }''', '''        if x.is_nan() || x < 0.0 { return f32::NAN; }
+        let halved = (x.to_bits() + 0x3f80_0000) >> 1;
+        f32::from_bits(halved)''')],
  'ops-inline-attr': [('dasp_sample/src/ops.rs', 'pub fn sqrt(x: f32) -> f32 {\n        if', '#[inline]\n    pub fn sqrt(x: f32) -> f32 {\n        if')],
  'osc-float-suffix': [('dasp_signal/src/lib.rs', '0.395 * (n0 + n1)', '0.395f64 * (n0 + n1)')],
  'osc-hex-prime': [('dasp_signal/src/lib.rs', 'const PRIME_1: u64 = 15_731;', 'const PRIME_1: u64 = 0x3D73;')],
@@ -21,13 +28,23 @@ EDITS = {
  'osc-comment': [('dasp_signal/src/lib.rs', 'let x = (seed << 13) ^ seed;', 'let x = (seed << 13) ^ seed; /* scramble */')],
  'sample-table-comment': [('dasp_sample/src/lib.rs', 'impl_sample! {', 'impl_sample! { /* table */', 1)],
 }
+# edits that CHANGE behaviour: the translators must refuse them (or translate them faithfully so that a proof breaks)
+REJECT = {
+ 'ops-guard-lets-nan-through': [('dasp_sample/src/ops.rs', '''        if x >= 0.0 {
+            f32::from_bits((x.to_bits() + 0x3f80_0000) >> 1)
+        } else {
+            f32::NAN
+        }''', '''        if x < 0.0 { return f32::NAN; }
+        f32::from_bits((x.to_bits() + 0x3f80_0000) >> 1)''')],
+ 'ops-guard-strict': [('dasp_sample/src/ops.rs', 'if x >= 0.0 {\n            f32::from_bits', 'if x > 0.0 {\n            f32::from_bits')],
+}
 def run(cmd, env=None):
     e=dict(os.environ); e.update(env or {})
     p=subprocess.run(cmd, shell=True, stdout=subprocess.PIPE, stderr=subprocess.STDOUT, text=True, env=e)
     return p.returncode, p.stdout
 lean = '--lean' in sys.argv
 bad=0
-for name, edits in EDITS.items():
+for name, edits in list(EDITS.items()) + list(REJECT.items()):
     shutil.rmtree(TMP, ignore_errors=True)
     for d in ('dasp_sample/src','dasp_signal/src','dasp_frame/src','dasp_ring_buffer/src','dasp_slice/src','dasp_peak/src','dasp_rms/src','dasp_envelope/src','dasp_interpolate/src','dasp_window/src','dasp_graph/src'):
         shutil.copytree(os.path.join(REPO,d), os.path.join(TMP,d))
@@ -49,5 +66,8 @@ for name, edits in EDITS.items():
     if lean and not errs:
         rc,out=run('cd %s && lake build Dasp.Gen.ConvTable Dasp.Gen.ConvFloatThm Dasp.Props.C11 Dasp.Props.C15 Dasp.Props.C17 2>&1 | grep -E "^error" | head -3'%LEAN)
         if out.strip(): errs.append('lean: '+out.strip()[:300])
+    if name in REJECT:
+        print(name, 'OK (refused: %s)' % errs[0][:110] if errs else 'FAIL: a behaviour-changing edit was accepted'); bad += 0 if errs else 1
+        continue
     print(name, 'OK' if not errs else 'FAIL '+' | '.join(errs)); bad+= 1 if errs else 0
 print('failures:',bad)
